@@ -11,7 +11,7 @@ VARIABLES cfg, now, on, swOffAt, holdOffAt, out, err, nops, act
 \* on: "off" | "hold" | "swpulse";  out: platform commands emitted by the last step, each
 \* <<kind, pulse_ms, pulse_power, hold_power, duration>>;  err: the last call was refused
 vars == <<cfg, now, on, swOffAt, holdOffAt, out, err, nops, act>>
-Init == /\ cfg \in Configs /\ now = 0 /\ on = "off" /\ swOffAt = 0 /\ holdOffAt = 0 /\ out = <<>> /\ err = FALSE
+Init == /\ cfg \in Configs /\ now = 1 /\ on = "off" /\ swOffAt = 0 /\ holdOffAt = 0 /\ out = <<>> /\ err = FALSE
         /\ nops = 0 /\ act = [op |-> "init"]
 PMs(x) == IF x = NONE THEN cfg.defPulseMs ELSE x
 PP(x) == IF x = NONE THEN (IF cfg.defPP # 0 THEN cfg.defPP ELSE 100) ELSE x
@@ -40,6 +40,9 @@ Pulse(msA, ppA) ==
        ELSE IF ms > 0 /\ ms <= PlatMaxPulse
             THEN /\ err' = FALSE /\ out' = <<<<"pulse", ms, pp, 0, 0>>>> /\ act' = a /\ UNCHANGED <<on, swOffAt, holdOffAt>>
             \* longer than the platform can time: switched on now, switched off by a software timer
+            ELSE IF ms = 0      \* degenerate: switched on and off again in the same loop iteration
+            THEN /\ err' = FALSE /\ out' = <<<<"enable", 0, pp, pp, 0>>, <<"disable", 0, 0, 0, 0>>>> /\ act' = a
+                 /\ on' = "off" /\ holdOffAt' = 0 /\ UNCHANGED swOffAt
             ELSE /\ err' = FALSE /\ out' = <<<<"enable", 0, pp, pp, 0>>>> /\ act' = a
                  /\ on' = "swpulse" /\ swOffAt' = now + ms /\ UNCHANGED holdOffAt
 Enable(msA, ppA, hpA) ==
@@ -55,7 +58,7 @@ TimedEnable(teA, hpA, msA, ppA) ==
 Disable == /\ Call /\ err' = FALSE /\ out' = <<<<"disable", 0, 0, 0, 0>>>> /\ on' = "off" /\ holdOffAt' = 0
            /\ UNCHANGED swOffAt /\ act' = [op |-> "disable"]
 \* time passes (to the next timer at most); the software pulse timer / the hold watchdog switch the coil off
-Adv(d) == /\ NothingDue /\ now < MaxTime
+Adv(d) == /\ now < MaxTime
           /\ LET nd == {x \in {swOffAt, holdOffAt} : x # 0}
                  t  == IF nd # {} /\ (CHOOSE m \in nd : \A y \in nd : m <= y) <= now + d
                        THEN (CHOOSE m \in nd : \A y \in nd : m <= y) ELSE now + d
@@ -78,7 +81,7 @@ CmdOK(c) == \/ c[1] = "disable"
                /\ (c[1] = "pulse" => c[4] = 0)
                \* a held command needs a hold power inside the limit; the software-timed pulse holds at
                \* its pulse power and is judged as a pulse
-               /\ (c[1] \in {"enable", "timed_enable"} => c[4] >= 0 /\ (c[4] <= HPLimit \/ (c[2] = 0 /\ c[4] = c[3] /\ on' = "swpulse")))
+               /\ (c[1] \in {"enable", "timed_enable"} => c[4] >= 0 /\ (c[4] <= HPLimit \/ (c[2] = 0 /\ c[4] = c[3] /\ act'.op = "pulse")))
                /\ (c[1] = "timed_enable" => c[5] >= 0 /\ (cfg.maxHoldDur = 0 \/ c[5] <= cfg.maxHoldDur))
 Envelope == [][\A i \in DOMAIN out' : CmdOK(out'[i])]_vars
 RefuseNotCommand == err => out = <<>>
